@@ -2036,10 +2036,27 @@ type rowOut struct {
 }
 
 type collector struct {
-	a     *analyzer
-	rows  map[string]*rowOut
-	order []string
-	seen  map[string]bool
+	a       *analyzer
+	rows    map[string]*rowOut
+	order   []string
+	seen    map[string]bool
+	goRoots map[string][]*node // goroutines launched from an entry: "<entry>+go:<function>" -> the launched functions
+	goOrder []string
+}
+
+// goName: a goroutine started from an entry point is an entry point of its own
+func goName(entry string, t *node) string {
+	k := trimKey(t.key)
+	if i := strings.Index(k, "@"); i >= 0 {
+		k = k[:i]
+	}
+	if i := strings.LastIndex(k, "."); i >= 0 {
+		k = k[i+1:]
+	}
+	if i := strings.Index(entry, "+go:"); i >= 0 {
+		entry = entry[:i]
+	}
+	return entry + "+go:" + k
 }
 
 func trimKey(k string) string {
@@ -2101,7 +2118,23 @@ func (c *collector) visit(entry string, multi bool, cond string, n *node, ctx lo
 					}
 				}
 				if ev.isGo {
-					c.visit(entry+"+go", true, cond, t, lockset{}, chain)
+					gn := goName(entry, t)
+					if c.goRoots == nil {
+						c.goRoots = map[string][]*node{}
+					}
+					if _, ok := c.goRoots[gn]; !ok {
+						c.goOrder = append(c.goOrder, gn)
+					}
+					dup := false
+					for _, r := range c.goRoots[gn] {
+						if r == t {
+							dup = true
+						}
+					}
+					if !dup {
+						c.goRoots[gn] = append(c.goRoots[gn], t)
+					}
+					c.visit(gn, true, cond, t, lockset{}, chain)
 				} else {
 					c.visit(entry, multi, cond, t, eff, chain)
 				}
@@ -2233,6 +2266,14 @@ func main() {
 		eouts = append(eouts, eo)
 	}
 
+	for _, gn := range col.goOrder {
+		eo := entryOut{Name: gn, Multi: true, What: "goroutine started with a go statement from " + gn[:strings.Index(gn, "+go:")], Roots: []string{}}
+		for _, r := range col.goRoots[gn] {
+			eo.Roots = append(eo.Roots, trimKey(r.key))
+			eo.Spans = append(eo.Spans, span{r.file, r.line0, r.line1})
+		}
+		eouts = append(eouts, eo)
+	}
 	// start-up conditions are only trusted when no entry ever writes the field they test
 	written := map[string]bool{}
 	for _, k := range col.order {
